@@ -28,6 +28,7 @@ type c17Arg struct {
 	ReqOut int  `json:"reqout"` // MaxRequestsOut
 	Depth  int  `json:"depth"`
 	Banned bool `json:"banned"` // the history starts with a peer that got banned for a corrupt piece
+	HangUp bool `json:"hangup"` // ... and that peer hung up right after its last corrupt block, before the hash check result
 }
 
 func init() { Register("c17", mkC17) }
@@ -112,16 +113,45 @@ func mkC17() *Scenario {
 			w.stdOpts().Behaviour["bad"] = &PeerBehaviour{Honest: true}
 			b.ConnectIn(port, g.InfoHash)
 			w.drainUntil(60, func() bool { return len(b.Requests) > 0 })
+			served := 0
 			for i := 0; i < 8 && b.Connected(); i++ {
 				if r, ok := b.PopRequest(); ok {
 					b.Serve(g, r, true)
+					served++
+					if arg.HangUp && served == g.L.PieceLen/16384 {
+						b.Close() // the whole (corrupt) piece is on its way: the peer leaves before the verdict
+						// the loop learns of the disconnect before it receives the hash check result
+						for k := 0; k < 30 && w.Dead == ""; k++ {
+							w.Quiesce()
+							acts := StdActions(w)
+							if len(acts) == 0 {
+								break
+							}
+							pick := 0
+							for ai, a := range acts {
+								if a.Label == "deliver:peerDisconnectedC" {
+									pick = ai
+								}
+							}
+							if acts[pick].Label == "deliver:pieceWriterResultC" && len(acts) == 1 {
+								w.Count("verdict_after_hangup", 1)
+							}
+							acts[pick].Do(w)
+						}
+					}
 				}
 				w.drainUntil(20, func() bool { return len(b.Requests) > 0 || !b.Connected() })
 			}
 			w.drain(50)
-			st := w.Tor.VerifState()
-			if len(st.BannedIPs) == 0 {
-				core.HarnessError("c17 setup: peer was not banned: %+v", st)
+			// the premise is observed at the loop's input, not read from the client's ban list
+			failed := false
+			for _, e := range w.Tor.VerifEvents() {
+				if e.Kind == "hashfail" && e.Source == "10.0.7.7" {
+					failed = true
+				}
+			}
+			if !failed {
+				core.HarnessError("c17 setup: no piece of the corrupting peer failed its hash check: %+v", w.Tor.VerifState())
 			}
 			bannedIP = "10.0.7.7"
 			forbidden[bannedIP+":7007"] = "banned for sending corrupt data"
@@ -139,7 +169,21 @@ func mkC17() *Scenario {
 		if kind == "badhash" {
 			ih[0] ^= 0xff
 		}
-		if kind != "silent" {
+		if kind == "serving" {
+			// a seed that speaks the extension protocol and advertises a request queue far above MaxRequestsOut:
+			// handshake, extension handshake (reqq 500), bitfield and unchoke in one segment; it never answers,
+			// so everything the client asks stays outstanding
+			var res [8]byte
+			res[5] |= 0x10
+			var b []byte
+			b = append(b, refcodec.Handshake(ih, p.ID, res)...)
+			b = append(b, refcodec.Extended(0, refcodec.ExtHandshakePayload(map[string]int{}, "lab", nil, 0, 500)).Encode()...)
+			b = append(b, refcodec.Bitfield(g.AllBitfield()).Encode()...)
+			b = append(b, refcodec.Simple(refcodec.MsgUnchoke).Encode()...)
+			p.SendRaw(b)
+			p.SentHS = true
+			w.Count("serving_peers", 1)
+		} else if kind != "silent" {
 			p.SendRaw(refcodec.Handshake(ih, p.ID, [8]byte{}))
 			p.SentHS = true
 		}
@@ -155,6 +199,7 @@ func mkC17() *Scenario {
 		}
 		n := len(in)
 		add("in:good", func(w *World) { connectIn(w, fmt.Sprintf("10.0.1.%d", 10+n), "good") })
+		add("in:serving-reqq500", func(w *World) { connectIn(w, fmt.Sprintf("10.0.1.%d", 100+n), "serving") })
 		add("in:badhash", func(w *World) { connectIn(w, fmt.Sprintf("10.0.1.%d", 40+n), "badhash") })
 		add("in:silent", func(w *World) { connectIn(w, fmt.Sprintf("10.0.1.%d", 70+n), "silent") })
 		add("in:blocked-ip", func(w *World) { connectIn(w, blockedIP, "good") })
@@ -309,7 +354,7 @@ func mkC17() *Scenario {
 func TestC17Lab(t *testing.T) {
 	ServeIfWorker(t)
 	rep := core.NewReport(os17Prop(), "lab-limits", "model_checking")
-	rep.Rule = "leeching torrent with MaxPeerAccept/MaxPeerDial in {1,2}, MaxRequestsOut in {1,2}, blocklist 10.0.9.0/24: every history of <= depth operations over {incoming connection: good / wrong info-hash / silent / from a blocked IP / from an already connected IP / from a banned IP; AddPeer of an address that answers well / with a wrong info-hash / never / refuses / is blocked / is the own listening address / has port 0 / belongs to a connected IP / is banned; 11 s clock advance}; caps on the client's own counters and on the sockets it has not closed, failed handshakes closed, forbidden addresses never dialled"
+	rep.Rule = "leeching torrent with MaxPeerAccept/MaxPeerDial in {1,2}, MaxRequestsOut in {1,2}, blocklist 10.0.9.0/24: every history of <= depth operations over {incoming connection: good / seed with extension handshake reqq 500 that never answers / wrong info-hash / silent / from a blocked IP / from an already connected IP / from a banned IP; AddPeer of an address that answers well / with a wrong info-hash / never / refuses / is blocked / is the own listening address / has port 0 / belongs to a connected IP / is banned (the banned peer having stayed, or having hung up before the verdict on its corrupt piece); 11 s clock advance}; caps on the client's own counters and on the sockets it has not closed, failed handshakes closed, forbidden addresses never dialled"
 	rep.Assumptions = []string{"rate limits and the read-cache / write-cache budgets are the component-level parts", "one torrent"}
 	depth := 3
 	var runs []Run
@@ -327,6 +372,8 @@ func TestC17Lab(t *testing.T) {
 			}
 		}
 	}
+	// the banned peer hung up before the verdict on its corrupt piece arrived
+	runs = append(runs, Run{Scenario: "c17", Arg: c17Arg{Accept: 2, Dial: 2, ReqOut: 2, Depth: 2, Banned: true, HangUp: true}, Budget: 0, MaxExec: 400000})
 	Explore(os17Test(), rep, runs)
 	if n, _ := rep.Extra["dials"].(int64); n == 0 {
 		rep.Vacuous("vacuous: the client never dialled")
